@@ -38,10 +38,10 @@ class CompileMapper(StringifyMapper):
         except ImportError:
             pass
         else:
-            if isinstance(expr, numpy.floating):
-                expr = float(expr)
-            elif isinstance(expr, numpy.complexfloating):
-                expr = complex(expr)
+            if isinstance(expr, numpy.generic):
+                # the repr of a numpy scalar (np.int64(3)) is not an expression
+                # the generated code can evaluate
+                expr = expr.item()
 
         result = repr(expr)
 
